@@ -9,6 +9,7 @@ ops:  ["rx", line]
       ["flag", node_id, "reboot" | "sleeping", bool]      application sets a public attribute
       ["restore", node_id, {type, version, sleeping, children: {cid: [ctype, desc, {vt: val}]}}]
       ["reenter"]                                          leave and re-enter `async with gateway`
+      ["load", {key: native record, ...}]                  restore through the real Persistence.load (sparse records allowed)
 """
 
 from __future__ import annotations
@@ -140,6 +141,8 @@ class Lockstep:
                 self.model.flag(op[1], op[2], op[3])
             elif kind == "restore":
                 self.restore(op[1], op[2])
+            elif kind == "load":
+                await self.load_file(op[1])
             elif kind == "reenter":
                 # the application leaves and re-enters `async with gateway` (reconnect); nothing in the statements makes
                 # the controller forget registry, buffer or episodes, so the model does nothing
@@ -168,6 +171,36 @@ class Lockstep:
                       for cid, ch in (data.get("children") or {}).items()},
             battery=data.get("battery", 0), heartbeat=data.get("heartbeat", 0), sleeping=data.get("sleeping", False)))
 
+    async def load_file(self, records: dict) -> None:
+        """The registry is (partly) restored through the REAL Persistence.load from a native-layout file whose records
+        may omit every optional field; the model applies the documented defaults itself."""
+        import json
+        import os
+        import tempfile
+
+        from aiomysensors.persistence import Persistence
+
+        fd, path = tempfile.mkstemp(prefix="vf-lockstep-", suffix=".json")
+        try:
+            with os.fdopen(fd, "w", encoding="utf-8") as fil:
+                json.dump(records, fil)
+            try:
+                await Persistence(self.gateway.nodes, path).load()
+            except Exception as exc:  # noqa: BLE001
+                self.bad("C14", "load-raised", f"loading a valid sparse file raised {type(exc).__name__}: {exc!s:.100}")
+                return
+        finally:
+            os.unlink(path)
+        for record in records.values():
+            children = {int(cid): MChild(ch["child_type"], ch.get("description", ""),
+                                         {int(k): v for k, v in (ch.get("values") or {}).items()})
+                        for cid, ch in (record.get("children") or {}).items()}
+            self.model.restore(record["node_id"], MNode(
+                record["node_type"], record["protocol_version"], children=children,
+                sketch_name=record.get("sketch_name", ""), sketch_version=record.get("sketch_version", ""),
+                battery=record.get("battery_level", 0), heartbeat=record.get("heartbeat", 0),
+                sleeping=record.get("sleeping", False)))
+
     # ------------------------------------------------------------------------------
     def check_invariants(self) -> None:
         """C05 agreement invariant + registry equality, after every step."""
@@ -185,6 +218,14 @@ class Lockstep:
                 key = "patch-zero-maps-down"
             self.bad("C05", key, f"reported version {gw.protocol_version!r} but active protocol {active!r} "
                                   f"(newest supported <= major.minor is {want_proto})")
+        if want_proto is None and isinstance(gw.protocol_version, str):
+            mm = spec.modifier_major_minor(gw.protocol_version)
+            if mm is not None:
+                self.stats["inv:version-protocol-modifier"] += 1
+                if active != spec.newest_not_above(mm):
+                    self.bad("C05", "version-protocol-disagree",
+                             f"reported version {gw.protocol_version!r} (major.minor {mm[0]}.{mm[1]}) was accepted but the "
+                             f"active protocol is {active!r}, not {spec.newest_not_above(mm)}")
         if gw.protocol_version != self.model.version or (active != self.model.proto):
             key = "version-state-differs"
             if gw.protocol_version is not None and spec.pmap(gw.protocol_version) is None and \
